@@ -257,11 +257,14 @@ closed:
 		err = clnt.err
 	}
 	clnt.Unlock()
-	for ; r != nil; r = r.next {
+	for r != nil {
+		// the caller woken through Done recycles the request: read the link first
+		next := r.next
 		r.Err = err
 		if r.Done != nil {
 			r.Done <- r
 		}
+		r = next
 	}
 
 	clnts.Lock()
